@@ -243,7 +243,9 @@ class Gen:
             t = self.choice(["int", "any", "list", "int"])
             v, vi = self.expr(t, depth, cur)
             # assign a fresh name, or re-assign an existing one (unless a Par sibling uses it)
-            existing = [x for x in cur.vars if x not in cur.no_write and x not in cur.no_read]
+            # (only with a value of the variable's recorded type: a re-assignment nested in a conditional or a try is
+            #  not tracked by definite_writes, so a type change would leave the enclosing environment wrong)
+            existing = [x for x in cur.vars if x not in cur.no_write and x not in cur.no_read and cur.vars[x] == t]
             if existing and self.integer(0, 2) == 0:
                 name = self.choice(sorted(existing))
             else:
@@ -492,7 +494,8 @@ class Gen:
     def g_lfor(self, want, depth, env):
         var = self.fresh("c")
         # (Python forbids an assignment expression in a comprehension's iterable)
-        it, ii, after = self.expr_seq("list", depth, env.child(no_bind=True))
+        # (nor does Hy define break/continue/return in a comprehension's iterable, which it may move into a function)
+        it, ii, after = self.expr_seq("list", depth, env.child(no_bind=True, in_fn=False, in_loop=False))
         after = env
         cenv = after.child(in_loop=False, no_exits=True, no_bind=True)
         cenv.vars[var] = "int"
